@@ -185,7 +185,13 @@ def name_templates(n):
             ('macro', 'define %s 8 print %s' % (n, n), ['O|i8']),
             ('parameter', 'define qq_f with %s begin print %s end qq_f 9' % (n, n), ['O|i9']),
             ('routine', 'define %s begin print 3 end %s' % (n, n), ['O|i3']),
-            ('function', 'define %s with a begin return {a + 1} end print [%s 4]' % (n, n), ['O|i5'])]
+            ('function', 'define %s with a begin return {a + 1} end print [%s 4]' % (n, n), ['O|i5']),
+            # a later parameter that shares its name with an existing global variable / macro, and a routine defined afterwards
+            ('second-parameter-hiding-a-variable', 'assign %s 3 define qq_g with qq_b %s begin return {qq_b * 10 + %s} end print [qq_g 1 2] print %s' % (n, n, n, n), ['O|i12', 'O|i3']),
+            ('third-parameter-hiding-a-variable', 'assign %s 3 define qq_g with qq_a qq_b %s begin return {qq_a + qq_b + %s} end print [qq_g 1 2 4] print %s' % (n, n, n, n), ['O|i7', 'O|i3']),
+            ('local', 'define qq_h begin assign %s 6 return %s end print [qq_h]' % (n, n), ['O|i6']),
+            ('loop-index', 'repeat with %s from 1 to 2 begin print %s end' % (n, n), ['O|i1', 'O|i2']),
+            ('light-variable', 'repeat all as %s begin print %s end' % (n, n), None)]
 
 
 def check_names(ctx, names):
@@ -203,7 +209,7 @@ def check_names(ctx, names):
                 continue
             if is_res:
                 continue   # that reserved words are rejected is not part of the property
-            builtin = n in BUILTINS and role in ('routine', 'function', 'variable', 'macro', 'parameter')
+            builtin = n in BUILTINS
             if p is None or n in UNDOC:
                 if n in UNDOC:
                     if p is not None:
@@ -221,6 +227,8 @@ def check_names(ctx, names):
             ctx.nontriv(text)
             st, evs = lang.run_program_impl(p, lang.SMALL_WORLD, max_steps=500)
             evs = [x for x in evs if x != 'FL']
+            if expect is None:
+                expect = evs if st == 'FIN' else None     # only: compiles and runs to the end
             if st != 'FIN' or evs != expect:
                 ctx.counterexample('C16/name-misbehaves-' + role, 'the name %r used as a %s compiles but the script gives %s %r instead of %r' % (n, role, st, evs[:3], expect), {'text': text})
     ctx.extra['names'] = dist
@@ -263,7 +271,8 @@ def check_strings(ctx, thorough):
                 ctx.counterexample('C16/compiler-raises-on-string', 'the string %r makes the compiler raise %s' % (s, type(ex).__name__), {'text': text})
                 continue
             trailing = len(s) - len(s.rstrip('\\'))
-            sig = 'C16/string-trailing-backslash' if trailing >= 1 else 'C16/string-content-' + tag
+            # D34 (known finding) is about a string that ends in a backslash AND is followed by another quoted string on its line
+            sig = 'C16/string-trailing-backslash' if trailing >= 1 and tag == 'followed-by-string' else 'C16/string-content-' + tag
             if p is None:
                 ctx.counterexample(sig, 'the quoted string %r is not accepted (%s): %s' % (s, tag, e.strip()[:80]), {'text': text})
                 continue
